@@ -17,8 +17,15 @@ import z3
 from . import state
 
 
+INF = float('inf')
+
+
 def _is_conc(x):
-    return isinstance(x, (int, Fraction))
+    return isinstance(x, (int, Fraction)) or (isinstance(x, float) and (x == INF or x == -INF))
+
+
+def _is_inf(x):
+    return isinstance(x, float)
 
 
 def _lift(x):
@@ -33,7 +40,12 @@ def _lift(x):
     if isinstance(x, (_np.integer, _np.bool_)):
         return int(x)
     if isinstance(x, (float, _np.floating)):
-        f = Fraction(float(x))
+        x = float(x)
+        if x == INF or x == -INF:
+            return x            # +-infinity is kept as a concrete extended real (np.inf bookkeeping in the repo)
+        if x != x:
+            raise TypeError('NaN cannot be lifted')
+        f = Fraction(x)
         return f.numerator if f.denominator == 1 else f
     raise TypeError('cannot lift %r to Sc component' % type(x))
 
@@ -42,12 +54,18 @@ def zterm(x):
     """component -> z3 Real term"""
     if isinstance(x, z3.ExprRef):
         return x
+    if isinstance(x, float):
+        raise ArithmeticError('infinity has no term')
     if isinstance(x, int):
         return z3.RealVal(x)
     return z3.Q(x.numerator, x.denominator)
 
 
 def _add(a, b):
+    if _is_inf(a) or _is_inf(b):
+        if _is_inf(a) and _is_inf(b):
+            return a + b
+        return a if _is_inf(a) else b
     if _is_conc(a):
         if _is_conc(b):
             return a + b
@@ -59,6 +77,10 @@ def _add(a, b):
 
 
 def _sub(a, b):
+    if _is_inf(a) or _is_inf(b):
+        if _is_inf(a) and _is_inf(b):
+            return a - b
+        return a if _is_inf(a) else -b
     if _is_conc(b):
         if _is_conc(a):
             return a - b
@@ -70,6 +92,12 @@ def _sub(a, b):
 
 
 def _mul(a, b):
+    if _is_inf(a) or _is_inf(b):
+        if _is_conc(a) and _is_conc(b):
+            if a == 0 or b == 0:
+                raise ArithmeticError('0 * inf')
+            return a * b if not isinstance(a, Fraction) and not isinstance(b, Fraction) else float(a) * float(b)
+        raise NotImplementedError('inf * symbolic')
     if _is_conc(a):
         if _is_conc(b):
             return a * b
@@ -94,6 +122,14 @@ def _neg(a):
 
 
 def _div(a, b):
+    if _is_inf(b):
+        if _is_inf(a):
+            raise ArithmeticError('inf / inf')
+        return 0
+    if _is_inf(a):
+        if _is_conc(b):
+            return a if b > 0 else -a
+        raise NotImplementedError('inf / symbolic')
     if _is_conc(b):
         if b == 0:
             raise ZeroDivisionError('Sc division by concrete zero')
@@ -277,6 +313,17 @@ class Sc(object):
     def reciprocal(s):
         return Sc(1) / s
 
+    # numpy-scalar conveniences the repo code uses on array elements
+    def copy(s):
+        return s
+
+    def item(s):
+        return s
+
+    shape = ()
+    ndim = 0
+    size = 1
+
     def __abs__(s):
         if s.is_real:
             if _is_conc(s.re):
@@ -309,6 +356,9 @@ class Sc(object):
         a, b = s.re, o.re
         if _is_conc(a) and _is_conc(b):
             return op(a, b)
+        if _is_inf(a) or _is_inf(b):
+            # a symbolic real is finite
+            return op(a, 0) if _is_inf(a) else op(0, b)
         return SymBool(op(zterm(a), zterm(b)))
 
     def __gt__(s, o):
@@ -358,6 +408,8 @@ class Sc(object):
             if _is_conc(a) and _is_conc(b):
                 if a != b:
                     return False
+            elif _is_inf(a) or _is_inf(b):
+                return False
             elif isinstance(a, z3.ExprRef) and isinstance(b, z3.ExprRef) and a.eq(b):
                 continue
             else:
@@ -369,7 +421,7 @@ class Sc(object):
     # ---------------------------------------------------------- realisation
     def __float__(s):
         if s.is_concrete and s.is_real:
-            return float(Fraction(s.re))
+            return s.re if _is_inf(s.re) else float(Fraction(s.re))
         raise TypeError('symbolic Sc realised as float (unmodelled path)')
 
     def __complex__(s):
@@ -399,6 +451,8 @@ class Sc(object):
 
 
 def _ev_exact(c, model):
+    if _is_inf(c):
+        return c
     if _is_conc(c):
         return Fraction(c)
     v = model.eval(c, model_completion=True)
